@@ -33,6 +33,8 @@ pub fn check(tier: Tier) -> Check {
             parts.push(Part::new("C13/causes", json!({"depth": d - 2, "flavour": 2}), 0, tier.pick(40, 600)));
         }
     }
+    // persistent back-pressure on the write half: causes arriving while a packet is half written
+    parts.push(Part::new("C13/causes", json!({"depth": tier.pick(4, 5), "wb": true}), 1, tier.pick(40, 600)));
     Check {
         also_rel: false,
         property: "C13",
